@@ -356,6 +356,10 @@ pub struct Driver<'u> {
     pub offs: Vec<(u64, usize)>, // every offset returned in this file generation, with the event
     pub gen: i64,
     pub extra: bool,
+    /// C15: references handed out by the current store object: (address, offset, event, base id)
+    pub held: Vec<(usize, u64, usize, usize)>,
+    /// distinct mapping base addresses (address of a reference minus its offset), in order of appearance
+    pub bases: std::cell::RefCell<Vec<usize>>,
 }
 
 pub fn classify(e: &pocket_db::Error) -> String {
@@ -413,7 +417,7 @@ impl<'u> Driver<'u> {
         let names: Vec<&'static str> = if extra { EXTRA_TABLES.to_vec() } else { vec![] };
         let r = catch_unwind(AssertUnwindSafe(|| Store::new(dir, names)));
         match r {
-            Ok(Ok(s)) => Ok(Driver { u, dir: dir.to_owned(), store: Some(s), offs: vec![], gen: 0, extra }),
+            Ok(Ok(s)) => Ok(Driver { u, dir: dir.to_owned(), store: Some(s), offs: vec![], gen: 0, extra, held: vec![], bases: std::cell::RefCell::new(vec![]) }),
             Ok(Err(e)) => Err(format!("err:{:?}", e.inner)),
             Err(_) => Err("panic".into()),
         }
@@ -439,11 +443,86 @@ impl<'u> Driver<'u> {
         match r {
             Ok(Ok(off)) => {
                 self.offs.push((off, i));
+                self.take_refs(off, i);
                 ("ok".into(), off as i64)
             }
             Ok(Err(e)) => (classify(&e), -1),
             Err(_) => ("panic".into(), -1),
         }
+    }
+
+    fn base_id(&self, base: usize) -> usize {
+        let mut bases = self.bases.borrow_mut();
+        match bases.iter().position(|b| *b == base) {
+            Some(p) => p,
+            None => {
+                bases.push(base);
+                bases.len() - 1
+            }
+        }
+    }
+
+    /// C15: obtain references to the event just stored through every API that hands them out (by
+    /// offset, by id, from a query) and remember their addresses
+    fn take_refs(&mut self, off: u64, i: usize) {
+        let mut ptrs: Vec<usize> = vec![];
+        {
+            let st = self.st();
+            let u = self.u;
+            let _ = catch_unwind(AssertUnwindSafe(|| {
+                if let Ok(e) = st.get_event_by_offset(off) {
+                    ptrs.push(e.as_bytes().as_ptr() as usize);
+                }
+                if let Ok(Some(e)) = st.get_event_by_id(u.id(i)) {
+                    if e.as_bytes() == u.ev(i).as_bytes() {
+                        ptrs.push(e.as_bytes().as_ptr() as usize);
+                    }
+                }
+                let f = AFilter { ids: vec![i], authors: vec![], kinds: vec![], tags: vec![], since: 0, until: INF, limit: INF, screen: 0, allow: 0 };
+                let fb = build_filter(u, &f);
+                if let Ok(filter) = unsafe { Filter::delineate(&fb) } {
+                    if let Ok((evs, _)) = st.find_events(filter, true, 0, 0, |_| ScreenResult::Match) {
+                        for e in evs {
+                            ptrs.push(e.as_bytes().as_ptr() as usize);
+                        }
+                    }
+                }
+            }));
+        }
+        for p in ptrs {
+            // all three denote the copy at `off` unless the event was stored more than once
+            let b = self.base_id(p.wrapping_sub(off as usize));
+            self.held.push((p, off, i, b));
+        }
+    }
+
+    /// store several events from concurrently running threads while this thread holds references
+    pub fn pstore(&mut self, evs: &[usize]) -> String {
+        let st = self.store.as_ref().expect("store open");
+        let u = self.u;
+        let results: Vec<(usize, Result<Result<u64, pocket_db::Error>, ()>)> = std::thread::scope(|s| {
+            let hs: Vec<_> = evs
+                .iter()
+                .map(|i| {
+                    let i = *i;
+                    s.spawn(move || (i, catch_unwind(AssertUnwindSafe(|| st.store_event(u.ev(i)))).map_err(|_| ())))
+                })
+                .collect();
+            hs.into_iter().map(|h| h.join().unwrap_or((0, Err(())))).collect()
+        });
+        let mut labels = vec![];
+        for (i, r) in results {
+            match r {
+                Ok(Ok(off)) => {
+                    self.offs.push((off, i));
+                    self.take_refs(off, i);
+                    labels.push("ok".to_string());
+                }
+                Ok(Err(e)) => labels.push(classify(&e)),
+                Err(()) => labels.push("panic".to_string()),
+            }
+        }
+        labels.join(",")
     }
 
     pub fn remove(&mut self, i: usize) -> String {
@@ -471,6 +550,7 @@ impl<'u> Driver<'u> {
     /// cold = really close the LMDB environment in between (what a process restart does);
     /// warm = drop the Store and open it again (heed hands out the still-open environment)
     pub fn reopen_mode(&mut self, cold: bool) -> String {
+        self.held.clear(); // the store object ends here
         self.store = None;
         if cold {
             close_env(&self.dir);
@@ -479,6 +559,7 @@ impl<'u> Driver<'u> {
     }
 
     pub fn reopen(&mut self) -> String {
+        self.held.clear();
         self.store = None; // drop: unmaps the event map
         self.reopen_inner()
     }
@@ -503,6 +584,7 @@ impl<'u> Driver<'u> {
     }
 
     pub fn rebuild(&mut self) -> String {
+        self.held.clear();
         let s = self.store.take().expect("store open");
         match catch_unwind(AssertUnwindSafe(|| unsafe { s.rebuild() })) {
             Ok(Ok(ns)) => {
@@ -565,6 +647,41 @@ impl<'u> Driver<'u> {
     }
 
     /// The projection of the store through public read APIs (DESIGN 4.3)
+    /// C15 observations: the distinct base addresses that fresh lookups of every offset ever returned
+    /// yield now (ids into `bases`; -1 for an address never seen before), and whether every held
+    /// reference whose base is still current denotes unchanged bytes (stale ones are never dereferenced)
+    pub fn ref_obs(&self) -> (Vec<i64>, i64, i64) {
+        let st = match self.store.as_ref() {
+            Some(s) => s,
+            None => return (vec![], 1, 0),
+        };
+        let mut cur: Vec<i64> = vec![];
+        for (off, _i) in self.offs.iter() {
+            if let Ok(Ok(e)) = catch_unwind(AssertUnwindSafe(|| st.get_event_by_offset(*off))) {
+                let b = (e.as_bytes().as_ptr() as usize).wrapping_sub(*off as usize);
+                let id = self.base_id(b) as i64;
+                if !cur.contains(&id) {
+                    cur.push(id);
+                }
+            }
+        }
+        let mut ok = 1;
+        let mut checked = 0;
+        if cur.len() == 1 && cur[0] >= 0 {
+            for (p, _off, i, b) in self.held.iter() {
+                if *b as i64 == cur[0] {
+                    let exp = self.u.ev(*i).as_bytes();
+                    let got = unsafe { std::slice::from_raw_parts(*p as *const u8, exp.len()) };
+                    checked += 1;
+                    if got != exp {
+                        ok = 0;
+                    }
+                }
+            }
+        }
+        (cur, ok, checked)
+    }
+
     pub fn project(&self) -> Value {
         if self.store.is_none() {
             return json!({"open": 0, "retr": [], "corrupt": [], "delIds": [], "delAddr": [], "find": [],
@@ -677,7 +794,15 @@ impl<'u> Driver<'u> {
                 }
             }
             let bak = if self.dir.join("event.map.bak").exists() && self.dir.join("lmdb.bak").exists() { 1 } else { 0 };
-            json!({"open": 1, "retr": retr, "corrupt": corrupt, "delIds": del_ids, "delAddr": del_addr, "find": find,
+            let (rbase, rok, rchecked) = self.ref_obs();
+            let held_bases: Vec<i64> = {
+                let mut v: Vec<i64> = self.held.iter().map(|h| h.3 as i64).collect();
+                v.sort();
+                v.dedup();
+                v
+            };
+            json!({"rbase": rbase, "rok": rok, "rchecked": rchecked, "held": held_bases, "nheld": self.held.len() as i64,
+                   "open": 1, "retr": retr, "corrupt": corrupt, "delIds": del_ids, "delAddr": del_addr, "find": find,
                    "ix": ix, "end": end, "flen": flen, "gen": self.gen, "offs": offs, "extra": extra, "bak": bak})
         }));
         match r {
